@@ -282,17 +282,36 @@ theorem rvecs_count_splits (T : List Nat) :
 
 end GroupsEnum
 
-open Spec.UExact in
-/-- counting assignments per tie group is the same as enumerating them -/
-theorem groups_count_labelings (T : List Nat) (n1 : Nat) (twoU : Int) :
+/-- counting assignments per tie group is the same as enumerating them (the filter runs over the
+    `Nat` values of the enumeration) -/
+theorem groups_count_labelings_nat (T : List Nat) (n1 : Nat) (twoU : Int) :
     groupCount T n1 twoU
-      = ((Spec.UExact.nullDistOf n1 (poolOf T)).filter fun d => decide ((d : Int) ≤ twoU)).length := by
-  unfold groupCount twoUofR nullDistOf
+      = ((Spec.UExact.nullDistOf n1 (poolOf T)).filter
+          fun (d : Nat) => decide ((d : Int) ≤ twoU)).length := by
+  unfold groupCount twoUofR Spec.UExact.nullDistOf
   rw [GroupsEnum.rvecs_count_splits T 0 n1 0 (fun x => decide ((x : Int) ≤ twoU)),
     ← GroupsEnum.poolOf_eq, ← List.countP_eq_length_filter, List.countP_map]
   apply List.countP_congr
   intro p _
   simp
+
+/-- the same with the statement as written without a binder type: Lean elaborates the filter over
+    the enumeration coerced elementwise to `List Int` -/
+theorem groups_count_labelings (T : List Nat) (n1 : Nat) (twoU : Int) :
+    groupCount T n1 twoU
+      = ((Spec.UExact.nullDistOf n1 (poolOf T)).filter fun d => decide ((d : Int) ≤ twoU)).length := by
+  rw [groups_count_labelings_nat]
+  generalize Spec.UExact.nullDistOf n1 (poolOf T) = L
+  induction L with
+  | nil => rfl
+  | cons a L ih =>
+    have e : (do let x ← a :: L; pure (x : Int) : List Int)
+        = (a : Int) :: (do let x ← L; pure (x : Int) : List Int) := by
+      simp [List.flatMap_cons]
+    rw [e, List.filter_cons, List.filter_cons]
+    by_cases h : (a : Int) ≤ twoU
+    · simp only [h, decide_true, if_true, List.length_cons, ih]
+    · simp only [h, decide_false, Bool.false_eq_true, if_false, ih]
 
 theorem k2_counts_labelings (t0 t1 n1 : Nat) (twoU : Int) :
     groupCount [t0, t1] n1 twoU
